@@ -56,4 +56,10 @@ theorem decision_eq (i : In) :
   cases a <;> cases b <;> cases c <;> cases d <;> cases e <;> cases f <;> cases g <;> cases h <;>
     cases j <;> cases k <;> rfl
 
+/-- What `process_resource_event` drops from a rejected patch before storing it in the memory is
+what the model drops: both finalizer edits, i.e. every fn of the model. -/
+theorem carry_eq : Extracted.ownFns = ownFns ∧ ∀ fns : List Fn, carry fns = fns.filter (fun f => !Extracted.ownFns.contains f) := by
+  refine ⟨by decide, fun fns => ?_⟩
+  rfl
+
 end Kopf.C06.Tie
